@@ -24,6 +24,10 @@ class Resolver:
         for (cq, attr), cands in tables.FIELD_TYPES.items():
             c = prog.cls(cq)
             self._frozen[(c, attr)] = {prog.cls(x) for x in cands}
+        self._local_frozen: Dict[Tuple[str, str], Set[ClassInfo]] = {}
+        for (fq, var), cands in tables.LOCAL_TYPES.items():
+            f = prog.fn(fq)
+            self._local_frozen[(f.qual, var)] = {prog.cls(x) for x in cands}
         self.unresolved_calls = 0
         self.resolved_calls = 0
 
@@ -100,6 +104,9 @@ class Resolver:
             ty = self._ann_class(f.module, arg.annotation)
             if ty:
                 env[arg.arg] = ty
+        for (fq, var), tys in self._local_frozen.items():
+            if fq == f.qual:
+                env[var] = set(tys)
         stores: Dict[str, List[Optional[Set[ClassInfo]]]] = {}
         for n in walk_no_nested(f.node):
             if isinstance(n, ast.Assign) and len(n.targets) == 1 and isinstance(n.targets[0], ast.Name):
@@ -186,6 +193,20 @@ class Resolver:
                 return a | b
             return None
         return None
+
+    def is_frozen_receiver(self, f: FunctionInfo, e: ast.AST) -> bool:
+        """The candidate classes of `e` come from a frozen table, which lists
+        exact classes (subclasses are not implied)."""
+        if isinstance(e, ast.Attribute):
+            base = self.expr_type(f, e.value)
+            for c in base or []:
+                for k in self.prog.mro(c):
+                    if (k, e.attr) in self._frozen:
+                        return True
+        if isinstance(e, ast.Name):
+            if (f.qual, e.id) in self._local_frozen:
+                return True
+        return False
 
     def class_of_callable(self, f: FunctionInfo, func: ast.AST) -> Optional[ClassInfo]:
         """If `func` denotes an in-package class object (constructor call), return it."""
@@ -278,8 +299,9 @@ class Resolver:
                     if tys:
                         out: List[FunctionInfo] = []
                         is_self = isinstance(v, ast.Name) and v.id == sn
+                        exact = self.is_frozen_receiver(f, v)
                         for c in tys:
-                            cands = [c] + (prog.subclasses(c) if virtual else [])
+                            cands = [c] + (prog.subclasses(c) if (virtual and not exact) else [])
                             if is_self and f.parent is None and f.cls is not None:
                                 # receivers of `self.m()` inside f are the classes that
                                 # actually inherit f (a subclass overriding f never runs it)
